@@ -7,6 +7,7 @@ import (
 	"os"
 	"path/filepath"
 	"runtime"
+	"sort"
 	"strings"
 	"sync"
 	"testing"
@@ -32,9 +33,10 @@ type poolEntry struct {
 }
 
 type wop struct {
-	Kind  string `json:"op"`            // decode | query | report | export
-	Idx   int    `json:"pool_index"`    // which pool entry (decode: decoded into an own object; others: the shared decoded object)
-	Obs   string `json:"obs,omitempty"` // query
+	Kind  string `json:"op"`              // decode | query | report | export | hammer
+	Count int    `json:"count,omitempty"` // hammer: number of top-level Score() calls, alternating over all shared objects starting at pool_index
+	Idx   int    `json:"pool_index"`      // which pool entry (decode: decoded into an own object; others: the shared decoded object)
+	Obs   string `json:"obs,omitempty"`   // query
 	Lang  string `json:"lang,omitempty"`
 	Tpl   string `json:"template,omitempty"`
 	Yield bool   `json:"yield,omitempty"` // runtime.Gosched() before the operation
@@ -137,6 +139,37 @@ func runOpPlain(w workload, shared []*subject, o wop) string {
 		}
 		sn := s.snap()
 		return fmt.Sprintf("%v|%v", sn.Fields, sn.Views)
+	case "hammer":
+		// a tight loop of top-level Score() calls alternating over the shared objects; the
+		// result is the set of distinct scores each object answered (one each, sequentially)
+		seen := make([]map[float64]bool, len(shared))
+		fns := make([]func() float64, len(shared))
+		for k, sh := range shared {
+			if sh != nil {
+				fns[k] = sh.views()[0].score
+				seen[k] = map[float64]bool{}
+			}
+		}
+		n := o.Count
+		if n < 0 || n > 1000000 {
+			n = 0
+		}
+		for r := 0; r < n; r++ {
+			k := (i + r) % len(shared)
+			if fns[k] != nil {
+				seen[k][fns[k]()] = true
+			}
+		}
+		var parts []string
+		for k := range shared {
+			var vals []float64
+			for v := range seen[k] {
+				vals = append(vals, v)
+			}
+			sort.Float64s(vals)
+			parts = append(parts, fmt.Sprint(vals))
+		}
+		return strings.Join(parts, ";")
 	case "query":
 		if shared[i] == nil {
 			return "n/a"
@@ -260,7 +293,11 @@ var checkC16 = register("C16/workload", func(w workload) string {
 	// ---- sequential reference afterwards, on the same shared objects (queries do not modify)
 	for g, ops := range w.Goroutines {
 		for k, o := range ops {
-			if want := runOp(w, shared, o); got[g][k] != want {
+			so := o
+			if so.Kind == "hammer" && so.Count > 2*len(shared) {
+				so.Count = 2 * len(shared) // sequentially every call of an object answers the same
+			}
+			if want := runOp(w, shared, so); got[g][k] != want {
 				return fmt.Sprintf("goroutine %d op %d (%+v): concurrent result %q differs from the sequential result %q", g, k, o, trunc(got[g][k]), trunc(want))
 			}
 		}
@@ -365,6 +402,52 @@ func TestC16(t *testing.T) {
 			c.rec.Sample(map[string]any{"cold_start_storm": []string{"decode", "query", "report", "export"}[kind], "goroutines": 16, "first_goroutine_ops": w.Goroutines[0]})
 		}
 		evalEnum(c, "workload", w, checkC16, &nviol)
+	}
+	// ---- pair hammer: two shared scope-changed environmental objects whose modified impact
+	// sub-scores differ, scored alternately by 16 goroutines. One representative vector per
+	// distinct sub-score value and version; every unordered pair (4,422 workloads; each goroutine makes 400 (quick) / 20,000 (thorough) Score() calls in a tight loop and reports the set of distinct answers per object). State shared *between objects* inside the scoring arithmetic (a memo of
+	// an expensive term, a scratch variable) is only disturbed when two different arguments
+	// meet, which random pools of a few vectors almost never arrange.
+	{
+		nviol := 0
+		var evals int64
+		imp := []float64{0.56, 0.22, 0}
+		req := []float64{1.5, 1.0, 0.5}
+		ic, rc := []string{"H", "L", "N"}, []string{"H", "M", "L"}
+		for _, ver := range []string{"3.1", "3.0"} {
+			seen := map[int64]bool{}
+			var reps []string
+			for a := 0; a < 729; a++ {
+				d := [6]int{a % 3, a / 3 % 3, a / 9 % 3, a / 27 % 3, a / 81 % 3, a / 243 % 3}
+				miss := 1 - (1-imp[d[0]]*req[d[3]])*(1-imp[d[1]]*req[d[4]])*(1-imp[d[2]]*req[d[5]])
+				if miss > 0.915 {
+					miss = 0.915
+				}
+				key := int64(miss*1e9 + 0.5)
+				if miss <= 0 || seen[key] {
+					continue
+				}
+				seen[key] = true
+				reps = append(reps, fmt.Sprintf("CVSS:%s/AV:N/AC:L/PR:N/UI:N/S:C/C:%s/I:%s/A:%s/CR:%s/IR:%s/AR:%s", ver, ic[d[0]], ic[d[1]], ic[d[2]], rc[d[3]], rc[d[4]], rc[d[5]]))
+			}
+			k := 0
+			for i := 0; i < len(reps) && nviol == 0; i++ {
+				for j := i + 1; j < len(reps) && nviol == 0; j++ {
+					k++
+					if !mine(k) {
+						continue
+					}
+					w := workload{Procs: 16, Pool: []poolEntry{{Ver: 3, Level: 2, Input: reps[i]}, {Ver: 3, Level: 2, Input: reps[j]}}}
+					for g := 0; g < 16; g++ {
+						w.Goroutines = append(w.Goroutines, []wop{{Kind: "hammer", Idx: g, Count: int(pick(400, 20000))}, {Kind: "query", Idx: g, Obs: "severity"}})
+					}
+					evals++
+					evalEnum(c, "workload", w, checkC16, &nviol)
+				}
+			}
+			c.rec.SetExtra(fmt.Sprintf("pair_hammer_distinct_subscores_v%s", ver), len(reps))
+		}
+		c.rec.Bulk("pair-hammer", evals, evals, map[string]int64{"pair-hammer:two-distinct-subscores": evals})
 	}
 	tpls := append([]string{"{{range $i, $e := .Version}}{{$e}}{{end}}", "{{if eq .SeverityValue \"High\"}}!{{end}}{{.Version}}"}, c16Templates...)
 	c.rapidStage("workloads", pick(1600, 24000), func(rt *rapid.T) {
